@@ -352,3 +352,56 @@ func VerifC05Fixpoint() {
 		vAssert(allSound, "C05.query-sound")
 	}
 }
+
+// VerifC05QueryErrors: a query whose expression cannot be evaluated for some of the matching facts (a
+// comparison meeting a string) still returns exactly the head instances of the substitutions that
+// make the expression true -- whatever the order of the facts.
+func VerifC05QueryErrors() {
+	vForbidPanic("C05")
+	vTimerMode(0)
+	F := vParam("facts")
+	syms := &SymbolTable{}
+	w := NewWorld(WithMaxFacts(1000), WithMaxIterations(100), WithMaxDuration(30*time.Second))
+	for i := 0; i < F; i++ {
+		kind := [...]int{kInt, kStr}[vChoose("f.kind", 2)]
+		w.AddFact(Fact{Predicate{Name: String(vUint64("f.name")), Terms: []Term{c05Const("f.term", kind)}}})
+	}
+	res := append([]Fact{}, (*w.Facts())...)
+	cr := c05Rule{hasExp: true, expVar: Variable(0), expC: vInt64("r.expc")}
+	cr.r = Rule{
+		Head:        Predicate{Name: String(vUint64("h.name")), Terms: []Term{Variable(0)}},
+		Body:        []Predicate{{Name: String(vUint64("b.name")), Terms: []Term{Variable(0)}}},
+		Expressions: []Expression{{Value{ID: Variable(0)}, Value{ID: Integer(cr.expC)}, BinaryOp{LessThan{}}}},
+	}
+	q := w.QueryRule(cr.r, syms)
+	qs := append([]Fact{}, (*q)...)
+	vCover("queried")
+	vAssert(c05Ground(qs), "C05.query-ground")
+	if !c05Ground(qs) {
+		return
+	}
+	complete := true
+	sound := make([]bool, len(qs))
+	c05Tuples(1, len(res), func(idx []int) {
+		cond, inst := c05Matches(cr, []Fact{res[idx[0]]})
+		if inst == nil {
+			return
+		}
+		present := false
+		for k, f := range qs {
+			is := c05FactIs(f, cr.r.Head.Name, inst)
+			present = vOr(present, is)
+			sound[k] = vOr(sound[k], vAnd(cond, is))
+		}
+		complete = vAnd(complete, vImplies(cond, present))
+	})
+	vAssert(complete, "C05.query-complete-despite-errors")
+	allSound := true
+	for _, s := range sound {
+		allSound = vAnd(allSound, s)
+	}
+	vAssert(allSound, "C05.query-sound")
+	if len(qs) > 0 {
+		vCover("answered")
+	}
+}
